@@ -74,28 +74,37 @@ class Check(PropertyCheck):
     prop = "C33"
     design_ref = "§5 C33"
     level_text = ("Lean theorems about the model of url.hostport (default-port elision, IPv6 brackets), url.parse_authority (its regex "
-                  "transcribed, both alternatives with backtracking), url.parse/unparse, Request.url getter/setter, host/port setters and "
+                  "transcribed, both alternatives with backtracking), urllib.parse.urlsplit's scheme/netloc reading (pySplit) and urllib's "
+                  "netloc -> hostname/port reading, url.parse/unparse, Request.url getter/setter, host/port setters and "
                   "_update_host_and_authority, for ALL hosts of the stated shape, schemes, ports and requests (HTTP/1 and HTTP/2, with/without "
-                  "Host header and authority): parseDec_decDigits, parseAuthority_hostport (what hostport writes, parse_authority reads back as "
-                  "the same host and port — DNS names, IPv4 and bracketed IPv6 alike), "
-                  "host_port_edit_keeps_host_header_and_authority_pointing_to_destination (any request, every host/port/accepted-url edit), "
-                  "url_get_set_idempotent_partial + url_get_set_idempotent_counterexample (IDN, F-C33b). Model (incl. urllib's netloc reading "
-                  "transcribed) tied to the real Request objects, url.parse and parse_authority differentially.")
-    level_note = ("PARTIAL: url_get_set_idempotent_partial assumes that url.parse reads the URL returned by the getter back into the request's "
-                  "own fields (hypothesis hcanon: holds for ASCII hosts, fails for IDN hosts = F-C33b); that urllib's netloc reading inverts "
-                  "hostport is validated differentially, not proved. urllib's urlparse splitting, the IDNA codec, is_valid_host and the "
-                  "authority idna round trip are parameters; port 0 (silently replaced by the default port) and URLs with userinfo (dropped) "
-                  "are not counted as valid URLs by the oracle; non-ASCII paths are rejected by url.parse by design. F-C33a (IPv6 brackets) is "
-                  "fixed in /repo (bdda7e671).")
+                  "Host header and authority): parseDec_decDigits; parseAuthority_hostport and netloc_hostport (what hostport writes is read "
+                  "back as the same host and port by parse_authority and by urllib — DNS names, IPv4 and bracketed IPv6 alike); "
+                  "host_port_edit_keeps_host_header_and_authority_pointing_to_destination (any request, every host/port/accepted-url edit); "
+                  "url_parse_reads_getter_url (url.parse(request.url) returns the request's own scheme, host, port and path for http/https, "
+                  "lower-case ASCII hosts, ports 1..65535 with default-port elision, ASCII paths) and with it url_get_set_idempotent_ascii "
+                  "(re-assigning request.url changes nothing); url_get_set_idempotent_partial (general library, explicit hypothesis) + "
+                  "url_get_set_idempotent_counterexample (IDN, F-C33b). Model tied to the real Request objects, url.parse, parse_authority "
+                  "and urllib.parse.urlsplit differentially.")
+    level_note = ("PARTIAL for IDN hosts (F-C33b: Request.url returns the U-label form which url.parse rejects). For ASCII hosts the former "
+                  "hypothesis 'url.parse reads the getter's URL back' is now proved (url_parse_reads_getter_url); what remains assumed there are "
+                  "four named library facts, fields of GetterUrlOk: bracketedOk (_check_bracketed_host/ipaddress accepts the IPv6 literal), "
+                  "idnaAscii (the IDNA round trip leaves an ASCII host alone), hostValid (is_valid_host accepts it), restStable "
+                  "(urlunparse of urlparse's path/params/query/fragment gives back the request's path text — urlsplit's cutting at # ? ; after "
+                  "the netloc is not transcribed). Hosts must be lower case (urllib lower-cases them: an upper-case host reads back "
+                  "equivalent, not identical). Port 0 (silently replaced by the default port) and URLs with userinfo (dropped) are not "
+                  "counted as valid URLs by the oracle; non-ASCII paths are rejected by url.parse by design. F-C33a (IPv6 brackets) is fixed "
+                  "in /repo (bdda7e671).")
     technique = "Lean 4 proof (induction for decimal ports, case analysis of the authority regex) + differential correspondence on Request objects"
     rule = ("url cases: scheme x host form (9 DNS names incl. trailing dot/underscore/upper case/A-label, 3 IPv4, 6 bracketed IPv6, 4 IDN) x "
             "7 ports x 12 paths x 6 queries x 3 fragments assigned to HTTP/1 and HTTP/2 requests with/without Host header and authority, then "
             "re-assigned; 15% mutated URLs (userinfo, port 0/65536/non-digit, missing brackets, control characters); edit cases: 1–4 "
-            "host/port/url edits; pa cases: parse_authority on random strings over an alphabet of colons, brackets, digits and newlines. "
+            "host/port/url edits; pa cases: parse_authority on random strings over an alphabet of colons, brackets, digits and newlines; split "
+            "cases: valid and mutated ASCII URLs (leading blanks/controls, embedded TAB/CR/LF, unbalanced or invalid brackets) against "
+            "urllib.parse.urlsplit. "
             "distinct = distinct case; all non-trivial.")
     budget = {"quick": 5000, "thorough": 150000}
     time_budget = {"quick": 30, "thorough": 420}
-    fingerprints = ["mitmproxy.net.http.url:parse", "mitmproxy.net.http.url:unparse", "mitmproxy.net.http.url:hostport",
+    fingerprints = ["urllib.parse:urlsplit", "urllib.parse:_splitnetloc", "mitmproxy.net.http.url:parse", "mitmproxy.net.http.url:unparse", "mitmproxy.net.http.url:hostport",
                     "mitmproxy.net.http.url:default_port", "mitmproxy.net.http.url:parse_authority", "mitmproxy.net.check:is_valid_host",
                     "mitmproxy.net.check:is_valid_port", "mitmproxy.http:Request.url", "mitmproxy.http:Request.host",
                     "mitmproxy.http:Request.port", "mitmproxy.http:Request.authority", "mitmproxy.http:Request.host_header",
@@ -168,6 +177,11 @@ class Check(PropertyCheck):
                     elif e < 0.8: edits.append(["port", rng.pick([80, 443, 8080, 1, 65535, 22])])
                     else: edits.append(["url", self._valid_url(rng)[0]])
                 yield dict(q, k="edit", scheme=rng.pick(["http", "https", "https", ""]), host0=self._host(rng, 0.05), port0=rng.pick([80, 443, 81]), edits=edits)
+            elif r < 0.9:
+                u = self._valid_url(rng)[0] if rng.chance(0.5) else self._mutated_url(rng)
+                if rng.chance(0.2): u = rng.pick([" ", "\t", "\x00 ", ""]) + u
+                if rng.chance(0.1): i = rng.randint(0, len(u)); u = u[:i] + rng.pick(["\t", "\n", "\r"]) + u[i:]
+                if not nonascii(u): yield {"k": "split", "u": u}
             else:
                 n = rng.randint(0, 5)
                 s = "".join(rng.pick(AUTH_ALPHA) for _ in range(n))
@@ -201,6 +215,12 @@ class Check(PropertyCheck):
             try:
                 h, p = nurl.parse_authority(case["s"], case["check"])
                 return {"res": [h, p]}
+            except ValueError:
+                return {"res": "err"}
+        if k == "split":
+            try:
+                p = urllib.parse.urlsplit(case["u"])
+                return {"res": [p.scheme, p.netloc, p.path, p.query, p.fragment]}
             except ValueError:
                 return {"res": "err"}
         if k == "url":
@@ -251,7 +271,7 @@ class Check(PropertyCheck):
 
     def oracle(self, case, obs):
         k = case["k"]
-        if k == "pa": return []
+        if k in ("pa", "split"): return []
         fails = []
         if k == "url":
             exp = case["valid"]
@@ -375,6 +395,18 @@ class Check(PropertyCheck):
                 if h.startswith("[") and h.endswith("]"): h = h[1:-1]
                 hostq, valid = cps(h), "1" if ncheck.is_valid_host(h) else "0"
             return ["pa %s %d %s %s" % (cps(s), 1 if case["check"] else 0, hostq, valid)]
+        if k == "split":
+            # _check_bracketed_host's verdict on the candidate the model will ask about
+            u = case["u"].lstrip("".join(map(chr, range(33))))
+            for b in "\t\r\n": u = u.replace(b, "")
+            m = re.search(r"//([^/?#]*)", u)
+            vb = "1"
+            if m and "[" in m.group(1) and "]" in m.group(1):
+                try:
+                    urllib.parse._check_bracketed_host(m.group(1).partition("[")[2].partition("]")[0])
+                except ValueError:
+                    vb = "0"
+            return ["split %s %s" % (cps(case["u"]), vb)]
         if k == "url":
             r = self._mk(case)
             edits = [["url", case["u"]]]
@@ -399,6 +431,14 @@ class Check(PropertyCheck):
         return lines
 
     def model_obs(self, case, replies):
+        if case["k"] == "split":
+            f = replies[0].split(" ")
+            if f[0] != "ok": return [replies[0]]
+            # what follows the netloc is cut at '#' and '?' by urlsplit itself (two str.split calls, not transcribed)
+            rest = uncps(f[3]); frag = query = ""
+            if "#" in rest: rest, frag = rest.split("#", 1)
+            if "?" in rest: rest, query = rest.split("?", 1)
+            return ["ok", uncps(f[1]), uncps(f[2]), rest, query, frag]
         return replies
 
     @staticmethod
@@ -408,6 +448,8 @@ class Check(PropertyCheck):
 
     def impl_view(self, case, obs):
         k = case["k"]
+        if k == "split":
+            return ["err"] if obs["res"] == "err" else ["ok"] + obs["res"]
         if k == "pa":
             if obs["res"] == "err": return ["err"]
             h, p = obs["res"]
@@ -424,6 +466,7 @@ class Check(PropertyCheck):
 
     def branches(self, case, obs):
         k = case["k"]
+        if k == "split": return ["split:" + ("err" if obs["res"] == "err" else "ok")]
         if k == "pa": return ["pa:" + ("err" if obs["res"] == "err" else "ok" + ("+port" if obs["res"][1] is not None else ""))]
         if k == "url":
             out = ["url:" + obs["st1"] + (":valid" if case["valid"] else ":mutated")]
